@@ -16,9 +16,9 @@ func init() {
 	harness.Register(&harness.Check{
 		ID:    "C02",
 		Level: "exploration",
-		Rule: "cases = one string (<=256 chars) from 11 generators (systematic reduced-grammar sentences incl. invalid operand combinations, rendered random ASTs, " +
+		Rule: "cases = one string (<=256 chars) from 12 generators (systematic reduced-grammar sentences incl. invalid operand combinations, rendered random ASTs, " +
 			"random spellings, character mutations of those and of the ~1200 paths harvested from the suite, token soup, Unicode / invalid UTF-8 noise, " +
-			"grammar-derived boundary strings, one-rule splices into valid hosts, deeply nested / very long regular paths) parsed under 3 configurations (none, functions, functions+accessor); judged: no panic / process death / hang, " +
+			"grammar-derived boundary strings, one-rule splices into valid hosts, deeply nested / very long regular paths incl. any step form repeated up to 80 times, accepted ASTs with one value-group step inserted into a comparison operand) parsed under 3 configurations (none, functions, functions+accessor); judged: no panic / process death / hang, " +
 			"exactly one of (f,nil) or (nil, one of 4 syntax error types), returned f callable on 3 probe documents; non-trivial = the string is not rejected as " +
 			"`unrecognized input` at position 0 and is not a plain accepted suite path; distinct = distinct strings",
 		Assumptions: []string{"bounded time is observed as 'returned before the 10 s per-case watchdog (time spent inside one library call; confirmed twice alone in fresh processes, 45 s each)'; measured worst case for 256-char inputs is < 20 ms",
@@ -93,7 +93,7 @@ func init() {
 					}
 				},
 				Finish: reportHooks,
-				Required: []string{"class:sys", "class:ast-mutated", "class:suite-mutated", "class:soup", "class:unicode", "class:grammar", "class:splice", "class:nest", "outcome:func",
+				Required: []string{"class:sys", "class:ast-mutated", "class:suite-mutated", "class:soup", "class:unicode", "class:grammar", "class:splice", "class:nest", "class:restricted", "outcome:func",
 					"outcome:jsonpath.ErrorInvalidSyntax", "outcome:jsonpath.ErrorInvalidArgument", "outcome:jsonpath.ErrorFunctionNotFound", "outcome:jsonpath.ErrorNotSupported"},
 			}
 		},
